@@ -186,7 +186,13 @@ pub fn rw<S: Strat>(cfg: &RwCfg) {
             let ops = ops.clone();
             // Only a thread that does a compare_and_swap holds on to the initial value.
             let initial = if ops.contains(&WriteOp::Cas) { Some(initial.clone()) } else { None };
+            let c04 = cfg.consume;
             wh.push(rt::spawn(move || {
+                if c04 {
+                    // in the harnesses that decide C04 whatever goes wrong inside a write
+                    // operation (or with what it hands back) counts for C04
+                    rt::set_thread_tag("C04");
+                }
                 let held = prologue(&filler, false);
                 rt::quiet(|| rt::barrier(n));
                 let mut got = Vec::new();
